@@ -24,7 +24,8 @@ Transcribed (the code that exists, its quirks included):
                            residue = nodes of those resids minus removed, options, identify, then
                            either warning + removal or renaming / `replace` / `_old_atomname` /
                            residue-wide `modifications` (on the nodes of the residue that still exist:
-                           `n_idxs - removed`, the state after the repairs F-C14-2 and F-C14-3).
+                           `n_idxs - removed`); this is the state after the repairs F-C14-2, F-C14-3 and F-C14-4
+                           (`identify_ptms` reads the `annotated` snapshot of the input, not the live labels).
 
 Attribute values are strings or `None` (`Option String`); `graph`, `ptm.match` and log records
 below warning level are not modelled.
@@ -264,30 +265,28 @@ def usedBranch (res : List Atom) (edges : List (Int × Int)) (mods : List Modif)
     | _ => .inr g.atoms
 
 /-- the loop over `residue_ptms`; `pending` = atoms of the groups seen so far that were not emptied
-by the `used_mods` branch -/
-def identifyLoop (res : List Atom) (edges : List (Int × Int)) (mods : List Modif) :
+by the `used_mods` branch; `annot idx` = the `modifications` the atom carried in the INPUT (the snapshot
+`annotated` taken by `fix_ptm` before its loop) -/
+def identifyLoop (res : List Atom) (edges : List (Int × Int)) (mods : List Modif) (annot : Int → List Nat) :
     List Group → Cover → List Int → List Int → (Cover × List Int × List Int) ⊕ IdRes
   | [], cov, tc, pending => .inl (cov, tc, pending)
   | g :: gs, cov, tc, pending =>
-    if g.atoms.any (fun a => !(res.map (·.key)).contains a) then
+    let used := dedupNat (g.atoms.flatMap annot)
+    if used.isEmpty then
+      identifyLoop res edges mods annot gs cov (addNew (addNew tc g.atoms) g.anchors) (pending ++ g.atoms)
+    else if g.atoms.any (fun a => !(res.map (·.key)).contains a) then
+      /- `residue.subgraph(ptm_atoms)` (Molecule.subgraph copies `self.nodes[n]`) raises KeyError -/
       .inr (.keyError (pending ++ g.atoms ++ gs.flatMap (·.atoms)))
     else
-      let used := dedupNat (g.atoms.flatMap fun a =>
-        match res.find? (fun x => x.key == a) with
-        | some x => x.mods
-        | none => [])
-      if used.isEmpty then
-        identifyLoop res edges mods gs cov (addNew (addNew tc g.atoms) g.anchors) (pending ++ g.atoms)
-      else
-        match usedBranch res edges mods g used cov [] with
-        | .inl cov' => identifyLoop res edges mods gs cov' tc pending
-        | .inr left => .inr (.keyError (pending ++ left ++ gs.flatMap (·.atoms)))
+      match usedBranch res edges mods g used cov [] with
+      | .inl cov' => identifyLoop res edges mods annot gs cov' tc pending
+      | .inr left => .inr (.keyError (pending ++ left ++ gs.flatMap (·.atoms)))
 
 def nonPtm (res : List Atom) : List Int := (res.filter fun a => !a.ptm).map (·.key)
 
-def identify (res : List Atom) (edges : List (Int × Int)) (mods : List Modif) (groups : List Group)
-    (frags : List Frag) : IdRes :=
-  match identifyLoop res edges mods groups [] [] [] with
+def identify (res : List Atom) (edges : List (Int × Int)) (mods : List Modif) (annot : Int → List Nat)
+    (groups : List Group) (frags : List Frag) : IdRes :=
+  match identifyLoop res edges mods annot groups [] [] [] with
   | .inr r => r
   | .inl (cov, tc, pending) =>
     match coverGraph (nonPtm res) tc.length tc frags with
@@ -392,7 +391,8 @@ def step (mods : List Modif) (orig : List Atom) (s : St) (key : List Int) (group
   let al := allowed res edges mods
   let ok := candsOk res edges mods given
   let frags := al.zip given
-  match identify res edges mods groups frags with
+  let annot : Int → List Nat := fun k => ((orig.find? fun a => a.key == k).map (·.mods)).getD []
+  match identify res edges mods annot groups frags with
   | .outOfFuel => .outOfFuel
   | .keyError rm =>
     .done { mol := removeAtoms s.mol rm, removed := s.removed ++ rm, warnings := s.warnings ++ [rm],
